@@ -182,3 +182,23 @@ Theorem C01_closed_loop_delivers : forall prio sa dest dp pf p t0 A0 B0,
                   :: map (fun k => tp21_dt sa dest (dt_payload p (Z.of_nat k))) (seq 0 (npk (length p))).
 Proof. exact Net21Proofs.closed_loop_delivers. Qed.
 Print Assumptions C01_closed_loop_delivers.
+
+From J1939P Require Net21Bam.
+(* T01.9 — end to end, broadcast: A calls send_pgn for the global address with ANY payload of 9..1785 bytes; the network's
+   clock advances by A's packet interval between the packets (shorter than the listener's T1); after finitely many steps
+   nothing is queued, no session is left, B's listeners have been called exactly once each with exactly p, and A has put
+   on the wire exactly BAM, DT_1 .. DT_n *)
+Theorem C01_bam_closed_loop_delivers : forall prio sa dp pf p t0 A0 B0,
+  0 <= prio < 8 -> 0 <= sa < 255 -> 0 <= pf < 240 -> 0 <= dp < 2 -> 8 < len p <= 1785 -> 0 < t0 ->
+  0 < n_bam_iv A0 < tp21_T1 ->
+  n_snd A0 = [] /\ n_rcv A0 = [] /\ n_timers A0 = [] ->
+  n_snd B0 = [] /\ n_rcv B0 = [] /\ n_timers B0 = [] ->
+  let pv := dp * 65536 + pf * 256 in
+  exists j, let s := Net21.steps j (Net21.net_send (Net21.net0 A0 B0 t0) dp pf 255 prio sa p) in
+    Net21.qa s = [] /\ Net21.qb s = [] /\
+    n_snd (Net21.na s) = [] /\ n_rcv (Net21.na s) = [] /\ n_snd (Net21.nb s) = [] /\ n_rcv (Net21.nb s) = [] /\
+    Net21.evb s = deliveries B0 7 pv sa addr_GLOBAL p /\
+    Net21.wab s = tp21_bam sa prio pv (len p) (Z.of_nat (npk (length p)))
+                  :: map (fun k => tp21_dt sa addr_GLOBAL (dt_payload p (Z.of_nat k))) (seq 0 (npk (length p))).
+Proof. exact Net21Bam.bam_closed_loop_delivers. Qed.
+Print Assumptions C01_bam_closed_loop_delivers.
